@@ -6,7 +6,7 @@ import itertools
 
 from ..core import Check
 from .. import mgmt
-from ..specs import ordered_set_history, stores
+from ..specs import ordered_set_history, stores, fmatch, nodup, without, truthy
 
 PROP = "C06"
 W = dict(p_update_filtered=0, probe=0, query=5, load=0.7, save=0.5, clear=0, build=0.2, long_g=0.15, alias_remove=0.6)  # clear_policy leaves the adapter untouched: a later reload is outside C06
@@ -49,6 +49,123 @@ def spec_check(kind, rows, lf, ops, obs, impl):
         if v:
             return [(seg_start + v[0][0], v[0][1])]
     return []
+
+
+CUTS = (30, 31, 32, 33, 34, 35, 36, 37, 38, 8)
+
+
+def in_sync(kind, p_rules, adapter_rows):
+    """no adapter, or the adapter holds exactly the in-memory p rules (as a set)"""
+    if not kind.adapter:
+        return True
+    return sorted(r for pt, r in adapter_rows if pt == 0) == sorted(p_rules)
+
+
+def update_filtered_step(kind, op, before, after, res, synced):
+    """update_filtered_policies(new_rules, i, *values) read through the property text: the FILTER selects exactly the
+    rules whose fields equal every non-empty value, the call replaces the selected rules by the new ones.  Only the
+    cases in which the text leaves no choice are demanded:
+      * a call that raises changes nothing;
+      * nothing selected: refused, nothing changes;
+      * something selected and the new rules are non-empty, pairwise distinct and absent from the rules that stay:
+        accepted, the selected rules are gone, the others keep their order, the new rules follow in the given order.
+    With an adapter the enforcer asks the ADAPTER which rules the filter selects (known finding C09/update-filtered-
+    policies), so the last two clauses are evaluated only while the adapter held exactly the in-memory rules before the call."""
+    msgs = []
+    new, i, vs = op[1], op[2], op[3]
+    b, a = before[0], after[0]
+    for pt in (0, 1, 2):
+        if not nodup(after[pt]):
+            msgs.append(f"stored rules of type {pt} contain a duplicate: {after[pt]}")
+    if after[1] != before[1] or after[2] != before[2]:
+        msgs.append("update_filtered_policies changed the role assignments")
+    if res[0] != 0:
+        if a != b:
+            msgs.append(f"update_filtered_policies raised (code {res[1]}) but the stored rules changed")
+        return msgs
+    ms = [fmatch(r, i, vs) for r in b]
+    if None in ms or not synced:
+        return msgs
+    ok = truthy(res)
+    sel = [r for r, m in zip(b, ms) if m]
+    rem = without(b, sel)
+    if not sel:
+        if ok:
+            msgs.append("update_filtered_policies reported success although the filter selects no rule")
+        if a != b:
+            msgs.append("update_filtered_policies changed the stored rules although the filter selects no rule")
+    elif new and nodup(new) and all(n not in rem for n in new):
+        if not ok:
+            msgs.append("update_filtered_policies of a non-empty selection by distinct rules absent from the remaining ones was rejected")
+        if any(r in a for r in sel if r not in new):
+            msgs.append("update_filtered_policies left a selected rule in the store")
+        if a != rem + new:
+            msgs.append("update_filtered_policies did not leave exactly the unselected rules (in order) followed by the new rules")
+    return msgs
+
+
+def walk(kind, rows, ops, obs, init, start=0, db0=None):
+    """the step-wise set semantics from step `start` on (stores before it: `init`), cut at reload/clear/flag calls as in
+    spec_check, plus the update_filtered_policies clauses; first violation with its absolute step"""
+    cur, seg_ops, seg_obs, seg_start = init, [], [], start
+    for i in range(start, min(len(ops), len(obs))):
+        op, o = ops[i], obs[i]
+        if op[0] in CUTS:
+            v = ordered_set_history(kind, rows, seg_ops, seg_obs, cur, prio_on=kind.prio)
+            if v:
+                return [(seg_start + v[0][0], v[0][1])]
+            if op[0] == 8:
+                before = stores(obs[i - 1]) if i > 0 else init
+                db = obs[i - 1][6] if i > 0 else (db0 or [])
+                m = update_filtered_step(kind, op, before, stores(o), o[0], in_sync(kind, before[0], db))
+                if m:
+                    return [(i, m[0])]
+            cur, seg_ops, seg_obs, seg_start = stores(o), [], [], i + 1
+            continue
+        seg_ops.append(op)
+        seg_obs.append(o)
+    v = ordered_set_history(kind, rows, seg_ops, seg_obs, cur, prio_on=kind.prio)
+    if v:
+        return [(seg_start + v[0][0], v[0][1])]
+    return []
+
+
+def prio_spec_check(kind, rows, lf, ops, obs, impl):
+    """explicit-priority models: WHERE a rule stands is C07's subject, so the history starts by reading the store
+    (get_policy) and every later clause is relative to the stores the implementation showed one step earlier:
+    add succeeds iff absent and then the rule is present once among otherwise undisturbed rules, remove succeeds iff
+    present, batches are all-or-nothing, a call that raises (priority mismatch) changes nothing, has_policy / get_policy /
+    get_filtered_policy agree, an update of a present rule to an absent one of the SAME priority replaces it in place.
+    The first observation must hold exactly the loaded rules, as a set."""
+    if not ops or tuple(ops[0]) != (52, 0) or not obs:
+        return []
+    o = obs[0]
+    p = o[3]
+    loaded = {0: [], 1: [], 2: []}
+    if lf:
+        for pt, r in rows:
+            loaded[pt].append(r)
+    if o[0] != [0, p]:
+        return [(0, "get_policy differs from the stored rules")]
+    if not nodup(p) or sorted(p) != sorted(loaded[0]):
+        return [(0, "after loading, the stored permission rules are not exactly the adapter's rules, each once")]
+    if o[4] != loaded[1] or o[5] != loaded[2]:
+        return [(0, "after loading, the stored role assignments are not the adapter's")]
+    return walk(kind, rows, ops, obs, stores(o), start=1)
+
+
+def spec_all(kind, rows, lf, ops, obs, impl):
+    """every clause of this module (replays and the strata added later use it)"""
+    if kind.prio:
+        return prio_spec_check(kind, rows, lf, ops, obs, impl)
+    v = spec_check(kind, rows, lf, ops, obs, impl)
+    if v:
+        return v
+    init = {0: [], 1: [], 2: []}
+    if lf:
+        for pt, r in rows:
+            init[pt].append(r)
+    return walk(kind, rows, ops, obs, init, 0, [[pt, r] for pt, r in rows] if lf else [])
 
 
 def exhaustive_cases(kind, maxlen):
@@ -104,13 +221,96 @@ def run(chk, n_random, exh_len):
         chk.extra["strata"][f"random_{kn}"] = len(cases)
 
 
+def prio_exhaustive_cases(maxlen):
+    """explicit-priority model, three loaded rules (two of priority 2, stored in an order the load has to sort): all
+    sequences up to maxlen over single/batch add, remove, update (same priority / other priority / to a present rule),
+    batch update (all pairs fine / a LATER pair changes the priority), partly present and partly absent batches"""
+    A = mgmt.ATOMS.a
+
+    def r(pr, s, o, a, e):
+        return [pr, A(s), A(o), A(a), e]
+    a1, a2, b2 = r(1, "alice", "data1", "read", mgmt.ALLOW), r(2, "alice", "data1", "read", mgmt.DENY), r(2, "bob", "data1", "read", mgmt.ALLOW)
+    c2, n2, n1 = r(2, "alice", "data2", "read", mgmt.ALLOW), r(2, "alice", "data1", "write", mgmt.ALLOW), r(1, "bob", "data1", "read", mgmt.DENY)
+    base = [(0, a2), (0, a1), (0, b2)]
+    alpha = [(1, 0, a1), (1, 0, c2), (1, 0, n1), (3, 0, a2), (3, 0, a1), (3, 0, c2),
+             (6, a2, n2), (6, a1, n1), (6, a2, n1), (6, a2, b2),
+             (7, [a1, a2], [n1, n2]), (7, [a2, a1], [n2, c2]),
+             (2, 0, [c2, n1]), (2, 0, [c2, a1]), (4, 0, [a1, a2]), (4, 0, [a2, c2]), (54, 0, a2)]
+    for n in range(1, maxlen + 1):
+        for seq in itertools.product(alpha, repeat=n):
+            yield (base, True, [(52, 0)] + list(seq) + [(52, 0), (54, 0, a2), (54, 0, n2)])
+
+
+def update_filtered_cases(maxlen):
+    """update_filtered_policies on a 3-rule universe: all sequences up to maxlen over add / remove and filtered updates
+    whose new rules overlap the selected ones, are disjoint from them, meet a rule that stays, or select nothing"""
+    A = mgmt.ATOMS.a
+    r1, r2, r3 = [A("alice"), A("data1"), A("read")], [A("bob"), A("data1"), A("read")], [A("alice"), A("data2"), A("read")]
+    r4 = [A("alice"), A("data2"), A("write")]
+    alpha = [(1, 0, r1), (1, 0, r2), (1, 0, r3), (3, 0, r1),
+             (8, [r1, r4], 0, [A("alice")]), (8, [r4], 0, [A("alice")]), (8, [r3], 1, [A("data1")]), (8, [r2, r4], 0, [A("alice")]),
+             (8, [r4], 0, [A("carol")]), (8, [r3, r1], 0, [A("alice"), 0, A("read")]), (8, [r4, r4], 0, [A("bob")])]
+    for n in range(1, maxlen + 1):
+        for seq in itertools.product(alpha, repeat=n):
+            if any(o[0] == 8 for o in seq):
+                yield ([(0, r1), (0, r3)], True, list(seq) + [(52, 0)])
+
+
+# no reload in these histories: update_filtered_policies tells the adapter before it knows whether anything is selected
+# (known finding C09/update-filtered-policies), a reload would bring that into memory
+W_UF = dict(W, p_update_filtered=4, p_update=1, p_update_many=1, alias_remove=0.2, load=0)
+
+
+def run_added(chk, n_random, exh_len):
+    """strata added after the third seeding wave: explicit-priority models (order-free clauses), update_filtered_policies"""
+    rng = chk.rng
+    st = chk.extra.setdefault("strata", {})
+    for kn in ("prio",):
+        ex = list(prio_exhaustive_cases(exh_len))
+        mgmt.run_cases(chk, mgmt.KINDS[kn], ex, spec_all, label=f"priority-model-exhaustive-len<={exh_len}")
+        st[f"priority_model_exhaustive_len<={exh_len}"] = len(ex)
+    for kn in ("prio", "prio_rbac"):
+        kind = mgmt.KINDS[kn]
+        cases = []
+        for _ in range(n_random):
+            g = mgmt.Gen(rng, kind, W)
+            rows = g.rows(rng.randint(0, 7))
+            cases.append((rows, True, [(52, 0)] + mgmt.drop_prefix_aliases(kind, rows, g.history(rng.randint(3, 16), final_probe=False))))
+        mgmt.run_cases(chk, kind, cases, spec_all, label=f"priority-model-random-{kn}")
+        st[f"priority_model_random_{kn}"] = len(cases)
+    uf = list(update_filtered_cases(exh_len + 1))
+    for adapter in (False, True):
+        # without an adapter nothing is loaded: the two initial rules are added by the first two calls instead
+        cs = uf if adapter else [([], False, [(1, 0, r) for pt, r in rows] + ops) for rows, lf, ops in uf]
+        mgmt.run_cases(chk, mgmt.KINDS["acl"].with_(adapter=adapter), cs, spec_all,
+                       label=f"update-filtered-exhaustive-len<={exh_len + 1}-{'adapter' if adapter else 'memory-only'}")
+    st[f"update_filtered_exhaustive_len<={exh_len + 1}_x2"] = 2 * len(uf)
+    for kn in ("acl", "rbac", "dom", "rbac_res", "acl_deny"):
+        cases = []
+        for _ in range(max(20, n_random // 2)):
+            kind = mgmt.KINDS[kn].with_(adapter=rng.random() < 0.5)
+            g = mgmt.Gen(rng, kind, W_UF)
+            rows = g.rows(rng.randint(1, 6))          # (empty without an adapter: the history starts from nothing)
+            cases.append((kind, rows, True, mgmt.drop_prefix_aliases(kind, rows, g.history(rng.randint(4, 16), final_probe=False))))
+        for adapter in (True, False):
+            sub = [(r, lf, o) for k, r, lf, o in cases if k.adapter == adapter]
+            mgmt.run_cases(chk, mgmt.KINDS[kn].with_(adapter=adapter), sub, spec_all, label=f"update-filtered-random-{kn}")
+        st[f"update_filtered_random_{kn}"] = len(cases)
+
+
 def main():
     chk = Check(PROP)
     chk.rule = ("management histories (add/remove/update, batch and filtered forms, RBAC-API wrappers, for p, g, g2) with "
                 "arguments biased to repeats / one-field neighbours / absent rules, batches with internal duplicates and "
                 "partly present sets; exhaustive over a 17-op alphabet on a 2-rule universe up to the stated length, "
                 "plus random histories on ACL/RBAC/domain/resource-role models; non-trivial = contains at least one "
-                "mutating call; distinct by (model kind, sequence of mutating calls)")
+                "mutating call; distinct by (model kind, sequence of mutating calls)"
+                "; explicit-priority models (ACL- and RBAC-shaped, loaded through the adapter): exhaustive over a 17-call "
+                "alphabet on three loaded rules up to the same length + random histories, every history starting with "
+                "get_policy and judged by the clauses that do not depend on where a rule is stored; "
+                "update_filtered_policies: exhaustive over an 11-call alphabet (replacement overlapping / disjoint from / "
+                "colliding with the selection, empty selection) up to length 3/4 with and without an adapter + random "
+                "histories on the five non-priority models")
     chk.assumptions = [
         "priority-ordered insertion is C07; here only set-ness and membership are checked for priority models",
         "a filter that reaches past the end of a rule raises IndexError in the code; such calls are outside the property",
@@ -120,14 +320,18 @@ def main():
     chk.trusted = ["hand-written model coq/theories/Policy.v + Mgmt.v tied by the differential history correspondence"]
     chk.build(oracle_name="Mgmt")
     if chk.replay_file:
-        return mgmt.replay_case(chk, spec_check)
+        return mgmt.replay_case(chk, spec_all)
     if chk.tier == "thorough":
         run(chk, 1500, 3)
+        run_added(chk, 1500, 3)
     else:
         run(chk, 150, 2)
+        run_added(chk, 150, 2)
         if (chk.broken() or chk.anchor_changed) and not chk.spec_failures:
             chk.notes.append("escalated after a broken proof/correspondence")
             run(chk, 800, 3)
+            if not chk.spec_failures:
+                run_added(chk, 800, 3)
     chk.finish()
 
 
